@@ -168,6 +168,8 @@ def key_sweep(fam, rnd, quick):
         i = "$5$" if base == "sha256_crypt" else "$6$"
         cfgs = [i + "rounds=1000$$", i + "rounds=1001$a$", i + "rounds=1041$zzzzzzzzzzzzzzzz$", i + "rounds=1042$./AZaz09$",
                 i + "rounds=1043$abcdefgh$", i + "saltsalt$"] + ([] if quick else [i + "rounds=1084$abc$", i + "rounds=1999$abcd$"])
+        # the implementation works in blocks of 42 rounds with a remainder loop: one configuration per remainder
+        residues = [f"{i}rounds={1008 + r}${h64[r] * (r % 17)}$" for r in range(42)]
     elif base == "sha1_crypt":
         cfgs = ["$sha1$1$$", "$sha1$2$a$", "$sha1$3$abcdefgh$", "$sha1$41$" + "z" * 64 + "$", "$sha1$1000$./AZaz09$"]
     elif base == "des_crypt":
@@ -202,6 +204,16 @@ def key_sweep(fam, rnd, quick):
             if quick and (ci + si) % 2 and ci > 0:
                 continue
             keys.append((f"{fam}|{cfg}|{s.hex()[:40]}|{len(s)}", s.hex(), cfg))
+    if base in ("sha256_crypt", "sha512_crypt"):
+        for r, cfg in enumerate(residues):
+            for s in (SECRETS[r % len(SECRETS)], b"pw", ("p\u00e9" * (1 + r % 9)).encode()):
+                keys.append((f"{fam}|{pre + cfg}|{s.hex()[:40]}|{len(s)}", s.hex(), pre + cfg))
+    if fam in ("bcrypt", "ldap_bcrypt"):
+        # the legacy "$2$" identifier repeats the password to 72 bytes: lengths whose 72nd byte falls inside a multi-byte character
+        for cfg in (c for c in cfgs if "$2$" in c):
+            for s in ("a\u00e9aaa", "a\u20acaaaaa", "\u00e9aaaaaa", "aa\U0001F600a", "\u20ac" * 2 + "b" * 5, "a\u00e9" * 4 + "aaa"):
+                b = s.encode()
+                keys.append((f"{fam}|{cfg}|{b.hex()[:40]}|{len(b)}", b.hex(), cfg))
     return keys
 
 
